@@ -320,12 +320,17 @@ UT = {"u8": 1, "u16": 2, "u32": 4, "u64": 8}
 IT = {"i8": 1, "i16": 2, "i32": 4, "i64": 8}
 
 
+def CONST_WIDE(r):
+    """widths whose bit count does not fit a byte (8*w wraps in uint8 arithmetic) and the named wide widths"""
+    return r.choice([31, 32, 33, 40, 63, 64, 65, 96, 127, 128, 129, 200, 255, r.randint(21, 255)])
+
+
 def g_const(r):
     k = r.random()
     if k < 0.3:
         t = r.choice(list(UT))
         s = UT[t]
-        w = r.choice([1, 2, 3, 4, 7, 8, 9, 16, s, s, r.randint(1, 20)])
+        w = r.choice([1, 2, 3, 4, 7, 8, 9, 16, s, s, r.randint(1, 20), CONST_WIDE(r)])
         m = 256 ** s
         v = r.choice([0, 1, m - 1, m // 2, 256 ** min(w, s) - 1, 256 ** min(w, s) % m, r.randrange(m),
                       r.randrange(256 ** min(w, s))])
@@ -335,7 +340,7 @@ def g_const(r):
     if k < 0.65:
         t = r.choice(list(IT))
         s = IT[t]
-        w = r.choice([1, 2, 3, 4, 7, 8, 9, 16, s, s, r.randint(1, 20)])
+        w = r.choice([1, 2, 3, 4, 7, 8, 9, 16, s, s, r.randint(1, 20), CONST_WIDE(r)])
         m = 256 ** s
         lim = 256 ** min(w, s) // 2
         v = r.choice([0, 1, -1, m // 2 - 1, -(m // 2), lim - 1, lim, -lim, -lim - 1, lim + 1,
